@@ -12,10 +12,10 @@ use frmc_core::space;
 use std::panic::{catch_unwind, AssertUnwindSafe};
 
 pub fn run_c16(cx: &Ctx) -> i32 {
-    let k = 4;
+    let k = if cx.quick() { 4 } else { 5 };
     let space = unr_space(k);
     let alphabet = vec!['a', 'b', 'é'];
-    let max_len = if cx.quick() { 2 } else { 4 };
+    let max_len = if cx.quick() { 2 } else { 3 };
     let texts = space::texts(&alphabet, max_len);
     let tallies = par::run_workers(32, |_w, claimer| {
         engine::quiet_panics();
@@ -197,7 +197,7 @@ pub fn run_c17(cx: &Ctx) -> i32 {
     let meta: Vec<char> = "\\.+*?()|[]{}^$#".chars().collect();
     let mut alphabet = meta.clone();
     alphabet.extend(['a', '0', ' ', '\t', 'é', '€', '😀', '-', '&', '~']);
-    let max_len = if cx.quick() { 3 } else { 4 };
+    let max_len = if cx.quick() { 3 } else { 5 };
     let strings = space::texts(&alphabet, max_len);
     let total = strings.len();
     let tallies = par::run_workers(64, |_w, claimer| {
